@@ -6,6 +6,7 @@ import LentilVerif.Gen.Hex
 import LentilVerif.Gen.Mesh
 import LentilVerif.Gen.UtilWindow
 import LentilVerif.Gen.UtilCentroid
+import LentilVerif.Gen.UtilRebin
 /-! Executable model of lentil's array-geometry helpers (`util.pad/subarray/boundary/rebin/centroid`,
 `helper.mesh/boundary_slice/slice_offset`, `shape.circle/rectangle/hexagon`, `segmented.hex_ring/hex_segments`).
 Index arithmetic comes from the generated kernel (`Gen.padIdx2`, `Gen.padIdx3`, `Gen.subarrayIdx`, `Gen.boundarySlice`,
@@ -148,6 +149,9 @@ def rebin3 [Add K] [Zero K] (a : Cube K) (f : Nat) : Option (Cube K) :=
     some { d := a.d, s0 := a.s0 / f, s1 := a.s1 / f,
            get := fun k i j => sumRange f fun u => sumRange f fun v => a.get k (i * f + u) (j * f + v) }
   else none
+
+/-- row-major (C order) flat position of the multi-index `idx` in an array of shape `dims` (what `reshape` preserves) -/
+def cFlat (dims idx : List Int) : Int := (List.zip dims idx).foldl (fun acc p => acc * p.1 + p.2) 0
 
 /-- numerators and common denominator of `util.centroid`: `(Σ i·x[i,j], Σ j·x[i,j], Σ x[i,j])` -/
 def centroidNum (a : Arr Int) : Int × Int × Int :=
